@@ -395,6 +395,55 @@ def vc_call_dispatch(H):
     H.run_paths(fuc, 'two-operands', body)
 
 
+def vc_call_nary(H):
+    """OperatorDict.__call__ with one or three operands (registered functions of that arity): the cache key is the tuple of the operands'
+    key tuples -- a value that compares equal on the next call with the same patterns -- and the values are passed in operand order."""
+    from kvc.engine import GenList
+    fuc = H.fn(REL, 'OperatorDict.__call__')
+    for n in (1, 3):
+        for wrapper_case in ('none', 'set'):
+            def body(ctx, n=n, wrapper_case=wrapper_case):
+                W = _world(ctx, wrapper_case, True)
+                ko, fn = _std_lookup(W)
+                ss = [SBool(z3.Bool(f'mv{i}_symbolic')) for i in range(n)]
+                mvs = [_mv(f'mv{i}', W['alg'], ss[i]) for i in range(n)]
+                interp = Interp(ctx, source_name=REL)
+                env = _env()
+                r = H.closure(interp, fuc, env)(W['me'], *mvs)
+                k = lambda m: Rec('call', Rec('attr', m, 'keys'), (), {})
+                v = lambda m: Rec('call', Rec('attr', m, 'values'), (), {})
+                look = _events(ctx, 'lookup')
+                if len(look) != 1:
+                    raise OutOfSubset('OperatorDict.__call__: not exactly one cache lookup (contract does not apply)')
+                key = look[0][1]
+                if isinstance(key, GenList):
+                    ctx.oblige('C10: the cache key compares equal on the next call with the same key patterns (a generator object is '
+                               'hashed by identity: the entry is never found again and every call generates code)', False,
+                               meta={'got': 'generator expression as cache key'})
+                    return r
+                if not isinstance(key, tuple):
+                    raise OutOfSubset('OperatorDict.__call__: cache key of an unrecognised kind (contract does not apply)')
+                ctx.oblige(f'C10/C08: the cache key is the tuple of the {n} operands\' key tuples, in operand order',
+                           same(key, tuple(k(m) for m in mvs)), meta={'got': repr(key)})
+                symbolic = ctx.decide(z3.Or(*[s_.t for s_ in ss])) if n > 1 else ctx.decide(ss[0].t)
+                vin = tuple(v(m) for m in mvs)
+                direct = Rec('call', fn, vin, {})
+                byname = Rec('call', Rec('item', W['numspace'], Rec('attr', fn, '__name__')), vin, {})
+                vals = direct if (symbolic or wrapper_case == 'none') else byname
+                if symbolic:
+                    flt = _events(ctx, 'call', lambda e: e[1] is W['me'].attrs['filter'])
+                    ctx.oblige('C12: symbolic operands -> the generated function itself, then filter(keys_out, values_out)',
+                               len(flt) == 1 and same(tuple(flt[0][2]), (ko, vals)))
+                    exp = Rec('call', Rec('attr', env['MultiVector'], 'fromkeysvalues'), (W['alg'],),
+                              {'keys': sym('f_keys'), 'values': sym('f_vals')})
+                else:
+                    exp = Rec('call', Rec('attr', env['MultiVector'], 'fromkeysvalues'), (W['alg'],), {'keys': ko, 'values': vals})
+                ctx.oblige('C02: values are passed in operand order; result pairs keys_out with the returned values',
+                           same(r, exp), meta={'got': repr(r), 'expected': repr(exp)})
+                return r
+            H.run_paths(fuc, f'{n}-operands,wrapper={wrapper_case}', body)
+
+
 def vc_unary_call(H):
     fuc = H.fn(REL, 'UnaryOperatorDict.__call__')
     for wrapper_case in ('none', 'set'):
